@@ -164,6 +164,15 @@ func TestSemantics(t *testing.T) {
 	if len(c.CachePods()) != 1 || c.CacheSet("ns", "web") == nil {
 		t.Fatalf("refresh")
 	}
+	// a pod that comes and goes while the cache is behind is still reported (add, then delete)
+	pods.Create(ctx, &corev1.Pod{ObjectMeta: metav1.ObjectMeta{Name: "g"}}, metav1.CreateOptions{})
+	pods.Delete(ctx, "g", metav1.DeleteOptions{})
+	if g := c.GhostPods("ns"); len(g) != 1 || g[0] != "g" {
+		t.Fatalf("ghost pods: %v", g)
+	}
+	if !c.RefreshPod("ns", "g", true) || len(c.GhostPods("ns")) != 0 || c.RefreshPod("ns", "g", true) {
+		t.Fatalf("ghost delivery")
+	}
 	// clone is deep and independent
 	n := c.Clone()
 	defer n.Close()
